@@ -64,7 +64,7 @@ prop(
     assumptions=['codecs (PyTables, netCDF4, xdrfile, dcdplugin, printf-style text formatting) store what they are given', 'unit factors 10 / 0.1 between nm and angstrom'],
     explanation='Writer call-site obligations for all 13 savers x {1,3} frames x {cell, no cell}; codecs bounded.',
     technique='contract-based deductive verification: symbolic execution of the real Python source against sidecar contracts, VCs to z3/cvc5 (writer call-site plumbing); bounded save/load round trip with an independent byte-level decoder as labelled stand-in for the codecs',
-    level_text="Deductive core: every save_* feeds its writer the trajectory's fields converted to the format's native unit (unit table from the format specifications), frame i with frame i, input unmodified, and the extension table dispatches correctly (all paths, symbolic force_overwrite and cell conditions); on the way back, read_as_traj of the pure-Python readers (hdf5, netcdf, mdcrd, xyz, lammpstrj, arc, lh5) converts coordinates and cell lengths native->nm exactly once and passes angles and stored times through, so the two unit factors cancel. The codecs themselves (text layouts, XDR/DCD/NetCDF/HDF5 encoders), the text parsers and the Cython readers are covered by the bounded round-trip check only, which reads the bytes with an independent decoder: level 'other' because an mdtraj part of the critical path is bounded-only.",
+    level_text="Deductive core: every save_* feeds its writer the trajectory's fields converted to the format's native unit (unit table from the format specifications), frame i with frame i, input unmodified, and the extension table dispatches correctly (all paths, symbolic force_overwrite and cell conditions); on the way back, read_as_traj of the pure-Python readers (hdf5, netcdf, mdcrd, xyz, lammpstrj, arc, lh5) converts coordinates and cell lengths native->nm exactly once and passes angles and stored times through, so the two unit factors cancel. One codec is verified as an encode/decode pair: a DCD frame written by write_dcdstep is read back by read_dcdstep (whole X/Y/Z blocks, unit cell, exact byte count, header counters) for every atom count, over a segment model of the file. The other codecs (text layouts, XDR compression, TRR, NetCDF/HDF5 libraries), the text parsers and the Cython file classes are covered by the bounded round-trip check only, which reads the bytes with an independent decoder: level 'other' because an mdtraj part of the critical path is bounded-only.",
     level_note='Trusted: VC generator, traced-array numpy model, in_units_of factor table, third-party codecs.',
 )
 
@@ -313,7 +313,10 @@ _TEXTS = {
             "cache consistent; the SSE kernels for 1..9 atoms (every remainder modulo the SIMD width, intrinsics as lane operations, shuffle immediates read from the real "
             "header): msd_atom_major builds M[3i+j] = sum a_i b_j, inplace_center_and_trace_atom_major shifts every frame by its own mean and stores its trace, "
             "rot_atom_major applies x' = x.R -- the index conventions of the three kernels and of Horn's identity agree. ASSUMED: DirectSolve returns the largest "
-            "root of the quartic. Bounded only: atom counts above 9, _rmsd.pyx / lprmsd glue, float32 effects, the 1e-11 identity threshold (known finding)."),
+            "root of the quartic -- narrowed by two further contracts: DirectSolve returns the maximum of the four values of quartic_equation_solve_exact, and each of those "
+            "values is a root (Ferrari's construction, identities modulo the square-root relations and the resolvent equation); what remains assumed: solve_cubic_equation "
+            "delivers the largest real root of the resolvent, and D^2, E^2 >= 0 for four real roots. Bounded only: atom counts above 9, _rmsd.pyx / lprmsd glue, "
+            "float32 effects, the 1e-11 identity threshold (known finding)."),
     "C07": (_T_C, "Deductive: the six angle/dihedral kernels for all frames and items, modularly over the distance kernels' contracts (atom pairs, formula "
             "acos(clip(u.v/|u||v|)), atan2 form of the dihedral with its sign, output index, matching distance variant); reversal/mirror lemmas (sympy); torsion atom tables; "
             "_atom_sequence on 4 topologies; dispatch of compute_angles/compute_dihedrals (orthogonal flag over all frames). Bounded only: float32, chi/phi/psi on real proteins."),
